@@ -760,7 +760,10 @@ impl File {
             ));
         }
 
-        FsContext::current(|mut ctx| {
+        // The corruption hook runs user code (a barrier may panic on purpose):
+        // it is fired once the host's `Fs` is no longer borrowed, or a panic
+        // would poison it for every later operation.
+        let (n, corrupted) = FsContext::current(|mut ctx| {
             // Check O_DIRECT alignment requirements
             if self.direct_io {
                 let alignment = ctx.fs.direct_io_alignment;
@@ -810,24 +813,30 @@ impl File {
             }
 
             // Check for random silent corruption
+            let mut corrupted = None;
             if n > 0 && corruption_prob > 0.0 && ctx.random_bool(corruption_prob) {
                 // Corrupt a random byte in the buffer by flipping bits
                 let corrupt_offset = ctx.random_range(0..n);
                 let corrupt_byte = ctx.random_u8();
                 buf[corrupt_offset] ^= corrupt_byte.max(1); // Ensure at least one bit flip
 
-                // Fire the installed corruption hook (turmoil's
-                // `unstable-barriers` integration installs this; if
-                // not installed, the call is a no-op).
-                crate::fire_corruption(&crate::FsCorruption {
+                corrupted = Some(crate::FsCorruption {
                     path: path.clone(),
                     offset: offset + corrupt_offset as u64,
                     len: 1,
                 });
             }
 
-            Ok(n)
-        })
+            Ok((n, corrupted))
+        })?;
+
+        // Fire the installed corruption hook (turmoil's `unstable-barriers`
+        // integration installs this; if not installed, the call is a no-op).
+        if let Some(event) = corrupted {
+            crate::fire_corruption(&event);
+        }
+
+        Ok(n)
     }
 
     /// Internal write implementation.
